@@ -127,30 +127,30 @@ Definition parse_span (data : bytes) : res span :=
 
 (* ---------- derived index and free map ---------- *)
 
-Definition index := list (bytes * (N * N)).   (* rid -> (offset, seq) *)
+(* A model state never holds two active tiles for one record id (recovery removes superseded
+   duplicates, see [recover]); the index is therefore just the active tiles with their offsets. *)
+Definition index := list (bytes * N).   (* rid -> offset *)
 
-Fixpoint upd_index (idx : index) (rid : bytes) (off seq : N) : index :=
-  match idx with
-  | [] => [(rid, (off, seq))]
-  | (r, (o, s)) :: rest =>
-      if bytes_eqb r rid
-      then (if s <? seq then (r, (off, seq)) else (r, (o, s))) :: rest
-      else (r, (o, s)) :: upd_index rest rid off seq
-  end.
-
-Fixpoint index_from (ts : list tile) (off : N) (idx : index) : index :=
+Fixpoint index_from (ts : list tile) (off : N) : index :=
   match ts with
-  | [] => idx
+  | [] => []
   | t :: r =>
-      index_from r (off + tlen t)
-                 (match t with TA _ seq rid => upd_index idx rid off seq | _ => idx end)
+      (match t with TA _ _ rid => [(rid, off)] | _ => [] end) ++ index_from r (off + tlen t)
   end.
-Definition index_of (ts : list tile) : index := index_from ts 0 [].
+Definition index_of (ts : list tile) : index := index_from ts 0.
 
 Fixpoint lookup (idx : index) (rid : bytes) : option N :=
   match idx with
   | [] => None
-  | (r, (o, _)) :: rest => if bytes_eqb r rid then Some o else lookup rest rid
+  | (r, o) :: rest => if bytes_eqb r rid then Some o else lookup rest rid
+  end.
+
+(* the active tile of a record: its image and the bytes that follow it in the file *)
+Fixpoint find_active (ts : list tile) (rid : bytes) : option (bytes * bytes) :=
+  match ts with
+  | [] => None
+  | TA img _ r :: rest => if bytes_eqb r rid then Some (img, flatten rest) else find_active rest rid
+  | _ :: rest => find_active rest rid
   end.
 
 Fixpoint fm_from (ts : list tile) (off : N) (cur : option (N * N)) : list (N * N) :=
@@ -210,12 +210,63 @@ Record sf := { tiles : list tile; nseq : N }.
 
 Definition initial_image : bytes := ta_img 0 [] [] 0.
 
-(* OpenFile on an existing image (size > 0): magic check of the first word, then the scan *)
-Definition open_image (file : bytes) : res sf :=
+(* markSpanAsFreed: the magic word becomes FREE, everything else stays *)
+Definition freed (t : tile) : tile :=
+  match t with
+  | TA img _ _ => match rd32 (skipn 4 img) with Some l => TF l (skipn 8 img) | None => t end
+  | _ => t
+  end.
+
+(* ---------- recovery after the scan ---------- *)
+
+Fixpoint best_seq (ts : list tile) (rid : bytes) (m : option N) : option N :=
+  match ts with
+  | [] => m
+  | TA _ seq r :: rest =>
+      best_seq rest rid (if bytes_eqb r rid
+                         then (match m with Some x => Some (N.max x seq) | None => Some seq end)
+                         else m)
+  | _ :: rest => best_seq rest rid m
+  end.
+
+Fixpoint mem_bytes (x : bytes) (l : list bytes) : bool :=
+  match l with [] => false | y :: r => bytes_eqb y x || mem_bytes x r end.
+
+(* a superseded older version: freed in a writable file, merely ignored in a read-only one *)
+Definition supersede (rw : bool) (t : tile) : tile :=
+  if rw then freed t else match t with TA img _ _ => TX img | _ => t end.
+
+Fixpoint dedup_go (rw : bool) (all : list tile) (ts : list tile) (done : list bytes) : list tile :=
+  match ts with
+  | [] => []
+  | TA img seq rid :: r =>
+      if (match best_seq all rid None with Some b => seq =? b | None => false end) && negb (mem_bytes rid done)
+      then TA img seq rid :: dedup_go rw all r (rid :: done)
+      else supersede rw (TA img seq rid) :: dedup_go rw all r done
+  | t :: r => t :: dedup_go rw all r done
+  end.
+
+(* a trailing region that starts with a zero magic word gets a FREE header in a writable file *)
+Fixpoint stamp_tail (ts : list tile) : list tile :=
+  match ts with
+  | [] => []
+  | [TZ bs] =>
+      if (minSpanLength <=? blen bs) && (match rd32 bs with Some 0 => true | _ => false end)
+      then [TF (blen bs mod 4294967296) (skipn 8 bs)] else [TZ bs]
+  | t :: r => t :: stamp_tail r
+  end.
+
+Definition recover (rw : bool) (ts : list tile) : list tile :=
+  let ts1 := dedup_go rw ts ts [] in
+  if rw then stamp_tail ts1 else ts1.
+
+(* OpenFile on an existing image (size > 0): magic check of the first word, scan, recovery *)
+Definition open_image (rw : bool) (file : bytes) : res sf :=
   match rd32 file with
   | Some m =>
       if negb ((m =? activeMagic) || (m =? freeMagic)) then Err
-      else bind (scan file) (fun ts => Ok {| tiles := ts; nseq := (max_seq ts 0 + 1) mod 4294967296 |})
+      else bind (scan file) (fun ts =>
+             Ok {| tiles := recover rw ts; nseq := (max_seq ts 0 + 1) mod 4294967296 |})
   | None => Err
   end.
 
@@ -237,19 +288,12 @@ Definition place (seq : N) (rid : bytes) (ss : list stream) (size rem : N) (old 
   else if rem <? minSpanLength then [TA (ta_img seq rid ss rem) seq rid]
   else [TA (ta_img seq rid ss 0) seq rid; TF rem (skipn_N (size + 8) old)].
 
-(* markSpanAsFreed at a given offset *)
-Fixpoint free_at (ts : list tile) (off target : N) : list tile :=
-  match ts with
-  | [] => []
-  | t :: r =>
-      if off =? target then
-        match t with
-        | TA img _ _ =>
-            (match rd32 (skipn 4 img) with Some l => TF l (skipn 8 img) | None => t end) :: r
-        | _ => t :: r
-        end
-      else t :: free_at r (off + tlen t) target
-  end.
+(* freeing the active version(s) of a record *)
+Definition free_rid (rid : bytes) (ts : list tile) : list tile :=
+  map (fun t => match t with
+                | TA _ _ r => if bytes_eqb r rid then freed t else t
+                | _ => t
+                end) ts.
 
 (* storage steps as the hook reports them *)
 Inductive step : Type :=
@@ -263,25 +307,24 @@ Definition write_stages (ts : list tile) (seq : N) (rid : bytes) (ss : list stre
   : option (list (step * list tile)) :=
   let size := span_size seq rid ss in
   let old := lookup (index_of ts) rid in
-  let finish (ts2 : list tile) :=
+  let finish (pre placed post : list tile) :=
       match old with
-      | Some o => [(SFreed o, free_at ts2 0 o)]
+      | Some o => [(SFreed o, free_rid rid pre ++ placed ++ free_rid rid post)]
       | None => []
       end in
+  let wlen (placed : list tile) (rem : N) :=
+      tiles_len placed - (if minSpanLength <=? rem then rem - 8 else 0) in
   match find_run ts [] [] 0 size with
   | Some (pre, run, post) =>
       let rem := tiles_len run - size in
       let placed := place seq rid ss size rem (flatten run) in
-      let ts2 := pre ++ placed ++ post in
-      Some ((SWrite (tiles_len pre) (tiles_len placed - (if minSpanLength <=? rem then rem - 8 else 0)), ts2) :: finish ts2)
+      Some ((SWrite (tiles_len pre) (wlen placed rem), pre ++ placed ++ post) :: finish pre placed post)
   | None =>
       if exp <? size then None else
-      let ts1 := ts ++ [TZ (nzeros exp)] in
       let placed := place seq rid ss size (exp - size) (nzeros exp) in
-      let ts2 := ts ++ placed in
-      Some ((SGrow exp, ts1)
-            :: (SWrite (tiles_len ts) (tiles_len placed - (if minSpanLength <=? exp - size then exp - size - 8 else 0)), ts2)
-            :: finish ts2)
+      Some ((SGrow exp, ts ++ [TZ (nzeros exp)])
+            :: (SWrite (tiles_len ts) (wlen placed (exp - size)), ts ++ placed)
+            :: finish ts placed [])
   end.
 
 Definition last_tiles (dflt : list tile) (l : list (step * list tile)) : list tile :=
@@ -299,18 +342,11 @@ Definition grow_amount (cur size : N) : N := N.max growMin (N.max size (cur / 20
 Definition remove_record (s : sf) (rid : bytes) : res (list step * sf) :=
   match lookup (index_of (tiles s)) rid with
   | None => Err
-  | Some o => Ok ([SFreed o], {| tiles := free_at (tiles s) 0 o; nseq := nseq s |})
-  end.
-
-(* bytes of the file from a given offset (the slice mmapData[offset:]) *)
-Fixpoint bytes_from (ts : list tile) (off target : N) : bytes :=
-  match ts with
-  | [] => []
-  | t :: r => if off =? target then flatten ts else bytes_from r (off + tlen t) target
+  | Some o => Ok ([SFreed o], {| tiles := free_rid rid (tiles s); nseq := nseq s |})
   end.
 
 Definition read_record (s : sf) (rid : bytes) : res span :=
-  match lookup (index_of (tiles s)) rid with
+  match find_active (tiles s) rid with
   | None => Err
-  | Some o => parse_span (bytes_from (tiles s) 0 o)
+  | Some (img, rest) => parse_span (img ++ rest)
   end.
